@@ -60,7 +60,7 @@ def concretise(terms, pkg) -> str:
     for t in terms:
         i, s = t["id"], py(t)
         out.append(f"def fp{i}(x: {s}): ...\n\n\ndef fr{i}() -> {s}: ...\n\n\n"
-                   f"class K{i}:\n    ca: {s}\n\n    def __init__(self, x: {s}):\n        self.ia: {s} = x\n\n\n"
+                   f"class K{i}:\n    ca: {s}\n\n    def __init__(self, x: {s}):\n        self.ia: {s} = x\n\n    @property\n    def pr(self) -> {s}:\n        ...\n\n\n"
                    # the same parameter seen through a private base class in two public subclasses (one type value, rendered twice)
                    f"class _PB{i}:\n    def inh(self, x: {s}):\n        ...\n\n\nclass PSa{i}(_PB{i}):\n    pass\n\n\nclass PSb{i}(_PB{i}):\n    pass\n\n")
     return "\n".join(out)
@@ -90,14 +90,14 @@ def observe(t, stubs: Stubs) -> dict:
             add("ctorparam", [type_term(c.params[0]["type"])])
         else:
             add("ctorparam", [], True)
-        for nm, label in (("ca", "classattr"), ("ia", "instattr")):
+        for nm, label in (("ca", "classattr"), ("ia", "instattr"), ("pr", "property")):
             m = member(c, nm, "attr")
             if m is None:
                 add(label, [], True)
             else:
                 add(label, [type_term(m.type)])
     else:
-        for label in ("ctorparam", "classattr", "instattr"):
+        for label in ("ctorparam", "classattr", "instattr", "property"):
             add(label, [], True)
     for cname, label in ((f"PSa{i}", "inherited-first"), (f"PSb{i}", "inherited-second")):
         kk = stubs.top(cname)
